@@ -61,6 +61,11 @@ CLAIMED = {
          "For every generated streaming pipeline in front of --take and every finite prefix followed by an endless stream of qualifying values, jawk must return Ok with exactly the rows of a finite reference run while pulling fewer bytes than a fixed budget past the value that produced the last row. Liveness turned into a bounded safety check.",
          "Trusted: the finite reference run for the rows; budget = reference length + 64 KiB (+ pipe and BufReader capacity for the FIFO).",
          "DESIGN.md §3 C14"),
+ "C15": ("exploration",
+         "property-based testing: csv output read back by an independent RFC 4180 reader (round-trip per field, by type), text output compared byte for byte with a reference renderer written from the option help texts",
+         "For generated rows of 1..5 selections over all JSON types, absent values and strings full of quotes, commas, CR/LF, every csv record must have exactly N fields, the header must be the selection names, and every field must give back its value by the documented convention; text rows must be exactly what the separator/prefix/postfix/escape/keyword options describe.",
+         "Trusted: the harness' csv reader (40 lines) and text renderer; nested values in text mode are restricted to strings with a unique concise JSON spelling, numbers in text mode to those with one plain decimal spelling.",
+         "DESIGN.md §3 C15"),
  "C16": ("fault_enumeration",
          "fault injection enumerated over every byte offset of generated inputs and of their fault-free outputs (reads: 7 error kinds, Interrupted and short reads before; writes: short writes and Interrupted before; flush-only failure)",
          "Per generated (input, policy, pipeline) every read offset and every write offset is tried: never a panic, result Err (never Ok), accepted output is a prefix of the fault-free output and justified by the bytes before the fault; exactly fault_free[..k] accepted for write faults.",
